@@ -86,19 +86,22 @@ contract(MT + '_apply_annotation_rename_to',
          params={'self': 'MainTransformer', 'node': 'Function', 'chain': 'any', 'block': 'GtkDocCommentBlock?'},
          props=('C03',),
          modifies=['*.shadowed_by', '*.shadows', 'LOGGER._warning_count'],
-         raises={'AttributeError': 'True'},
-         let={'target': "self._namespace.symbols.get(first_option(block, 'rename-to')) if ann(block, 'rename-to') and "
-                        "bool(block.annotations.get('rename-to')) else None"},
+         let={'found': "self._namespace.symbols.get(first_option(block, 'rename-to')) if ann(block, 'rename-to') and "
+                       "bool(block.annotations.get('rename-to')) else None",
+              'target': "(self._namespace.symbols.get(first_option(block, 'rename-to')) if ann(block, 'rename-to') and "
+                        "bool(block.annotations.get('rename-to')) and "
+                        "isinstance(self._namespace.symbols.get(first_option(block, 'rename-to')), ast.Function) else None)"},
          ensures={
-             'C03.rename.pair_is_mutual': "implies(target is not None and bool(target) and not old(target.shadowed_by) and not old(target.shadows) "
+             'C03.rename.pair_is_mutual': "implies(target is not None and not old(target.shadowed_by) and not old(target.shadows) "
                                           "and target is not node, "
                                           "target.shadowed_by == node.name and node.shadows == target.name "
                                           "and LOGGER._warning_count == old(LOGGER._warning_count))",
-             'C03.rename.no_multiple_shadowing': "implies(target is not None and bool(target) and (bool(old(target.shadowed_by)) or bool(old(target.shadows))), "
+             'C03.rename.no_multiple_shadowing': "implies(target is not None and (bool(old(target.shadowed_by)) or bool(old(target.shadows))), "
                                                  "target.shadowed_by == old(target.shadowed_by) and node.shadows == old(node.shadows) "
                                                  "and LOGGER._warning_count == old(LOGGER._warning_count) + 1)",
-             'C03.rename.unknown_symbol_warns': "implies(ann(block, 'rename-to') and bool(block.annotations.get('rename-to')) and not bool(target), "
-                                                "node.shadows == old(node.shadows) and LOGGER._warning_count == old(LOGGER._warning_count) + 1)",
+             'C03.rename.unknown_symbol_or_not_a_function_warns':
+                 "implies(ann(block, 'rename-to') and bool(block.annotations.get('rename-to')) and target is None, "
+                 "node.shadows == old(node.shadows) and LOGGER._warning_count == old(LOGGER._warning_count) + 1)",
              'C03.rename.absent_is_noop': "implies(not (ann(block, 'rename-to') and bool(block.annotations.get('rename-to'))), "
                                           "node.shadows == old(node.shadows) and LOGGER._warning_count == old(LOGGER._warning_count))",
          })
@@ -209,3 +212,93 @@ contract(MT + '_apply_annotations_property',
 contract(MT + '_get_block', params={'self': 'MainTransformer', 'node': 'Node'}, returns='GtkDocCommentBlock?', props=('C03',),
          raises={'AssertionError': 'True'},
          ensures={'C03.block.looked_up_by_annotation_name': 'result is self._blocks.get(self._get_annotation_name(node))'})
+
+
+# ---- callables: finish / sync / async functions, then generic metadata, parameters and the return value -------------------------------
+from .c01_param_annotations import DISPATCH_MODS as _DM   # noqa
+CALLABLE_MODS = sorted(set(GENERIC_FIELDS + ['node.finish_func', 'node.sync_func', 'node.async_func', 'LOGGER._warning_count']
+                           + [m.replace('node.', '*.') for m in _DM if m.startswith('node.') and not m.endswith('{}')]
+                           + [m for m in _DM if m.startswith('*.')] + ['*.destroy_name', '*.closure_name',
+                                                                        'node._retval.attributes{}']))
+contract(MT + '_apply_annotations_params',
+         params={'self': 'MainTransformer', 'parent': 'Callable', 'params': 'list[Parameter]', 'block': 'GtkDocCommentBlock?'},
+         trusted=True, modifies=[m for m in CALLABLE_MODS if not m.startswith('node.')],
+         raises={'KeyError': 'maybe', 'AssertionError': 'maybe', 'SystemExit': 'maybe', 'ValueError': 'maybe'},
+         ensures={'return_value_untouched': 'parent._retval.type is old(parent._retval.type)'},
+         note='matches the @param tags of the block with the parameters by name and applies each (the per-parameter functions '
+              '_apply_annotations_param ... are under contract in C01); the matching loop itself is assumed. ASSUMED FRAME IS '
+              'INCOMPLETE: the (attributes) dictionaries of the parameters change as well - a set of containers this frame '
+              'language cannot name; no clause of a caller under contract reads them after the call')
+
+
+def one_option(block, name):
+    """the single option of an annotation like (finish-func NAME), None when the annotation is absent"""
+    return block.annotations.get(name)[0] if block is not None and block.annotations.get(name) is not None else None
+
+
+contract(MT + '_apply_annotations_callable',
+         params={'self': 'MainTransformer', 'node': 'Callable', 'chain': 'any', 'block': 'GtkDocCommentBlock?'},
+         props=('C03',),
+         requires=['options_ok(block)', 'node.retval.type is not None', 'node.retval.type.ctype is not None',
+                   "implies(ann(block, 'finish-func'), len(block.annotations.get('finish-func')) >= 1)",
+                   "implies(ann(block, 'sync-func'), len(block.annotations.get('sync-func')) >= 1)",
+                   "implies(ann(block, 'async-func'), len(block.annotations.get('async-func')) >= 1)"],
+         modifies=CALLABLE_MODS, raises={'KeyError': 'True', 'AssertionError': 'True', 'SystemExit': 'True', 'ValueError': 'True'},
+         ensures={
+             'C03.callable.finish_sync_async_functions':
+                 "node.finish_func == keep_or(old(one_option(block, 'finish-func')), old(node.finish_func)) and "
+                 "node.sync_func == keep_or(old(one_option(block, 'sync-func')), old(node.sync_func)) and "
+                 "node.async_func == keep_or(old(one_option(block, 'async-func')), old(node.async_func))",
+             'C03.callable.metadata_parameters_and_return_value_come_from_the_same_block':
+                 "all_calls('_apply_annotations_annotated', 'arg_node is node and arg_block is block') and "
+                 "all_calls('_apply_annotations_params', 'arg_parent is node and arg_params is node._parameters and arg_block is block') and "
+                 "all_calls('_apply_annotations_return', 'arg_parent is node and arg_return_ is node._retval and arg_block is block')",
+         })
+
+contract(MT + '_check_instance_parameter', params={'self': 'MainTransformer', 'node': 'Function', 'block': 'GtkDocCommentBlock?'},
+         trusted=True, modifies=['LOGGER._warning_count'], raises={'SystemExit': 'maybe'},
+         note='strict-mode diagnostics about annotations on the instance parameter; changes nothing else')
+
+# ---- (virtual SLOT): the named slot of the owning class gets this function as its invoker ------------------------------------------
+VMS = 'chain[-1].virtual_methods'
+PASS2_FIELDS = sorted(set([m.replace('node.', '*.') if m.startswith('node.') and not m.endswith('{}') else m
+                           for m in CALLABLE_MODS if not m.endswith('{}')] + ['*.invoker', '*.shadowed_by', '*.shadows']))
+PASS2_MODS = PASS2_FIELDS + ['*{}']
+BLK = 'self._blocks.get(node.symbol)'
+HAS_SLOTS = "(len(chain) > 0 and isinstance(chain[-1], (ast.Class, ast.Interface)))"
+contract(MT + '_pass_read_annotations2',
+         params={'self': 'MainTransformer', 'node': 'Node', 'chain': 'list[Node]'}, returns='bool', ghost={'K': 'int'},
+         props=('C03',),
+         requires=['implies(%s, all_distinct(chain[-1].virtual_methods))' % HAS_SLOTS,
+                   "implies(isinstance(node, ast.Function) and self._blocks.get(node.symbol) is not None, "
+                   "options_ok(self._blocks.get(node.symbol)))",
+                   "implies(isinstance(node, ast.Function) and ann(self._blocks.get(node.symbol), 'virtual'), "
+                   "len(self._blocks.get(node.symbol).annotations.get('virtual')) >= 1)"] +
+                  ["implies(isinstance(node, ast.Function) and ann(%s, '%s'), len(%s.annotations.get('%s')) >= 1)" % (BLK, a, BLK, a)
+                   for a in ('finish-func', 'sync-func', 'async-func')],
+         modifies=PASS2_MODS,
+         raises={'KeyError': 'True', 'AssertionError': 'True', 'SystemExit': 'True', 'ValueError': 'True'},
+         loops={1: {'index': 'I1', 'modifies': PASS2_FIELDS + ['vfunc.attributes{}', 'vfunc._retval.attributes{}'],
+                    'assume_item': ['vfunc.retval.type is not None and vfunc.retval.type.ctype is not None'],
+                    'invariant': ['not matched',
+                                  'implies(%s and 0 <= K and K < I1, %s[K].name != invoker_name)' % (HAS_SLOTS, VMS),
+                                  'implies(%s and 0 <= K and K < len(%s), %s[K].invoker == old(%s[K].invoker))'
+                                  % (HAS_SLOTS, VMS, VMS, VMS)],
+                    'post': [
+                        # on every way out of the loop (first match -> break, or exhaustion):
+                        'implies(matched, %s and 0 <= I1 and I1 < len(%s) and %s[I1].name == invoker_name and '
+                        '%s[I1].invoker == node.name)' % (HAS_SLOTS, VMS, VMS, VMS),
+                        'implies(%s and 0 <= K and K < len(%s) and (not matched or K < I1), %s[K].name != invoker_name)'
+                        % (HAS_SLOTS, VMS, VMS),
+                        'implies(%s and 0 <= K and K < len(%s) and not (matched and K == I1), %s[K].invoker == old(%s[K].invoker))'
+                        % (HAS_SLOTS, VMS, VMS, VMS)],
+                    'var_types': {'vfunc': 'VFunction'}}},
+         ensures={
+             'C03.virtual.annotations_of_the_invoker_are_merged_into_its_slot':
+                 "all_calls('_apply_annotations_callable', '%s and arg_node is %s[local_I1] and arg_node.name == local_invoker_name and "
+                 "arg_block is self._blocks.get(node.symbol)')" % (HAS_SLOTS, VMS),
+             'C03.virtual.always_continues': 'result == True',
+         },
+         note='loop1.post0-2: the FIRST slot named by (virtual SLOT) gets invoker = this function, whatever invoker it had before '
+              '(an automatic pairing by name may have set one); every other slot keeps its invoker; if no slot has that name '
+              'nothing is changed (and a warning is issued)')
